@@ -28,6 +28,11 @@ var c04Items = []string{
 	// balls that are / contain lists and partial lists of variables bound since the catch was called
 	"throw(l([X]))", "Z = 5, throw([Z, X])", "Z = [X], throw(b([Y|Z]))",
 	"catch((g(Y), Y > 1, throw([Y, Y])), [W|_], (put_char(r), Y = W))",
+	// balls held in other internal representations: strings, answers of atom_chars/3, append/3, findall/3
+	"catch((atom_chars(abc, Q), throw(Q)), [a|W], (put_char(r), Y = W))",
+	"catch((append([X], [k|V], Q), throw(s(Q))), s([_, k|W]), (put_char(r), Y = W))",
+	"catch((findall(E, g(E), Q), throw(Q)), [W|_], (put_char(r), Y = W))",
+	"atom_codes(ab, Q), throw(c(Q, X))",
 	// built-in errors and unknown procedures
 	"atom_length(N, _)", "X > foo", "undefined_proc(X)",
 	// catch that exits deterministically / with choice points / after a retry
